@@ -35,7 +35,11 @@ import Dashu.Proofs.Text.DisplayText
     exactly (`display_width_exact`, `scientific_width_exact`);
   * the scientific formats (`LowerExp`, `UpperExp`, `Binary`, `Octal`, `LowerHex`, `UpperHex`, the
     hexadecimal form of base 2): the rounding step is the mode's rounding to `p + 1` significant digits
-    and the text denotes that rounded value (`scientific_rounding`, `scientific_text_denotes`).
+    and the text denotes that rounded value (`scientific_rounding`, `scientific_text_denotes`);
+  * Tie A: the marker tables of parser and formatter, `ilog_exact` (float/src/utils.rs) and the precision decision of
+    `FBig::with_base` (float/src/convert.rs) are regenerated from /repo on every run (`Dashu/Gen/FloatText.lean`) and proved equal
+    to the model (`scale_markers_regenerated`, `fmt_trait_table_regenerated`, `ilog_exact_regenerated`,
+    `with_base_precision_regenerated`).
 
   Not proved (checked by the correspondence run only; see `vlib/props/c08.py` FRONTIER):
   the large-exponent branch of `convert_base` through `ln`/`exp` (judged per case by exact arithmetic;
@@ -507,6 +511,25 @@ theorem fmt_trait_table_regenerated (B : Nat) (m : Mode) (f : FmtSpec) (prec : O
   ⟨fun upper => fmtSci_marker_gen B m f prec upper r, fmtRadixTrait_rows m f prec r,
     fun k t h => fmtRadixTrait_only B m f prec k r t h⟩
 
+
+/-- **Tie A (regenerated from float/src/utils.rs)**: the model's `ilogExact` — which decides the power-related shortcut of
+    `convert_base` and the `p·n` / `p/n` precision of `with_base` — IS `ilog_exact` as written in the source (early returns,
+    `while pow < n { pow *= base; exp += 1 }`, `if pow == n { exp } else { 0 }`), for every base ≥ 2 and every `Word` n; a fast path or a changed
+    comparison in the source changes the regenerated text and breaks this theorem (or the extraction fails closed) -/
+theorem ilog_exact_regenerated (n base : Nat) (hb : 2 ≤ base) (hn : n < 2 ^ 64) :
+    ilogExact n base = Dashu.Gen.float_ilogExact n base :=
+  ilogExact_eq_gen n base hb hn
+
+/-- **Tie A (regenerated from float/src/convert.rs)**: the precision `FBig::with_base::<NewB>()` derives — which `ilog_exact`
+    call is `down` / `up`, the tests `> 1`, `precision.saturating_mul(down)`, `precision / up`, and the exact integer logarithm
+    of `B^precision` otherwise — IS the model's `withBasePrecision`, with `ilogExact` for `ilog_exact` (itself regenerated:
+    `ilog_exact_regenerated`) and the documented maximum for `BASE.pow(p).ilog(NewB)` (`with_base_precision_documented`) -/
+theorem with_base_precision_regenerated (W B NewB p : Nat) :
+    withBasePrecision W B NewB p =
+      Dashu.Gen.float_withBasePrecision ilogExact (fun b q nb => withBasePrecisionSpec b nb q) B NewB p :=
+  withBasePrecision_eq_gen W B NewB p
+
+example : Dashu.Gen.float_ilogExact 32 4 = 0 ∧ Dashu.Gen.float_ilogExact 64 4 = 3 ∧ Dashu.Gen.float_ilogExact 4 32 = 0 := by decide
 
 /-- **zero-padded scientific text, read back**: with the zero flag (right or default alignment, any width, with
     or without `+`) — or without a width — the text parses back to exactly the value shown; the padding zeros
